@@ -618,13 +618,26 @@ impl<D: Distance> Writer<D> {
 
             // For each steps of the loop we starts by creating a new sub-tree with as many items as possible
             // and then insert all the remaining items that couldn't be selected into this new created tree.
-            let (leafs, to_insert) = ImmutableLeafs::new(
+            let (mut leafs, mut to_insert) = ImmutableLeafs::new(
                 wtxn,
                 self.database,
                 self.index,
                 &mut descendants,
                 options.available_memory.unwrap_or(usize::MAX),
             )?;
+            if !descendants.is_empty() && self.fit_in_descendant(options, to_insert.len()) {
+                // The selected items fit in a single descendant: it would not be split, and inserting the
+                // remaining items into it would recreate the very same too large descendant, forever.
+                // The available memory is only a hint, we must select everything in this case.
+                descendants |= &to_insert;
+                (leafs, to_insert) = ImmutableLeafs::new(
+                    wtxn,
+                    self.database,
+                    self.index,
+                    &mut descendants,
+                    usize::MAX,
+                )?;
+            }
             let frozen_reader = FrozzenReader {
                 leafs: &leafs,
                 trees: &ImmutableTrees::empty(),
